@@ -220,9 +220,9 @@ def observe_all(ctx, obj, cases, batch_size=120):
 
 
 def target_probe(ctx, obj):
-    """targ.c's per-target facts observed directly.  While the PlainCharRaw defect is present a plain character constant never
-    goes through `char`, so the signedness of char is invisible in literal values; these two conversions make it visible.
-    Expected values are the spec's CharSigned/WcharSigned as recovered from its verdicts on '\xFF' and L'\xFFFFFFFF'."""
+    """targ.c's per-target facts observed directly ((char)-1 < 0, signedness and size of the type of L'a'), next to their
+    indirect observation through '\\xff' and L'\\xffffffff' (which was blind to char signedness before fix 1ef9a15).
+    Expected values are the spec's CharSigned/WcharSigned as recovered from its verdicts on '\\xFF' and L'\\xFFFFFFFF'."""
     src = b"int cs = (char)-1 < 0;\nint ws = (typeof(L'a'))-1 < 0;\nint wz = sizeof(L'a');\n"
     for t in vlib.TARGETS:
         rc, out, err = vlib.cproc(obj, src, t)
